@@ -16,12 +16,18 @@
 //!   18 _ b template_from_str + render   19 _ b compile_expression + eval   20 _ b compile_expression_owned + eval
 //!   21 a b template_from_named_str + undeclared_variables   22 c  set_trim_blocks(c&1), set_keep_trailing_newline(c&2)
 //!   15 a b  get_template(a).render(context whose Serialize fails (b=0) / panics)
+//!   23 a   set_formatter (odd a: a formatter that renders a template itself first)   24 a  set_auto_escape_callback (ditto)
+//! Registry variants w >= 4 are callables that render a template themselves (same environment / a clone / a fresh
+//! one); `site` variants w >= 4 are objects whose Display / attribute lookup / method render a template;
+//! loaders l >= 4 render before answering.
 //! Output, mode 0: per step `tag val` of the operation, then what each of the 4 names renders
 //! (`tag val` each; on a throw-away clone) in the current environment, then `present` + the same for the
 //! other environment.  mode 1: only the last step's `tag val` and the 8 integers of the current environment after it.
 //! tag 0 = rendered the integer val; 1 = error of kind val; 2 = nothing to report; 3 = non-integer
 //! output of length val; 4 = the caller's own Serialize impl panicked; 5 = the integer val/4 with val%4 newlines.
-use minijinja::value::{Kwargs, Serde, Value};
+use minijinja::value::{Kwargs, Object, Serde, Value};
+use minijinja::State;
+use std::fmt;
 use minijinja::{Environment, Error, ErrorKind};
 use mjverif::*;
 use serde::ser::{Error as _, Serialize, SerializeStruct, Serializer};
@@ -41,6 +47,12 @@ pub fn src_text(x: i64) -> String {
         2 => format!(
             "{{{{ {} }}}}{{% for x in [1,2] %}}{{% set y %}}a{{{{ 1 // 0 }}}}{{% endset %}}{{% endfor %}}",
             p
+        ),
+        // the global `site` printed / asked for an attribute / called, under an explicit auto-escape mode
+        15 => format!(
+            "{{% autoescape {} %}}{{{{ {} }}}}{{% endautoescape %}}",
+            ESCAPE_MODES[p.div_euclid(3).rem_euclid(3) as usize],
+            expr_text(x)
         ),
         6 => format!("{{% for i in [1] %}}\n{{{{ {} }}}}{{% endfor %}}", p),
         7 => format!("{{% if true %}}{{{{ {} }}}}{{% endif %}}\n", p),
@@ -70,11 +82,102 @@ pub fn expr_text(x: i64) -> String {
         12 => "(data|tojson)|length".to_string(),
         13 => "(data|string)|length".to_string(),
         14 => "1 if q is kt(opt=1) else 0".to_string(),
+        15 => ["site", "site.n", "site.go(1)"][p.rem_euclid(3) as usize].to_string(),
         _ => format!("{}", p),
     }
 }
 
+pub const ESCAPE_MODES: [&str; 3] = ["'none'", "'html'", "'json'"];
+
+// ---- nested / re-entrant renders: user callables that render a template themselves ----
+/// A plain object with its own Display.
+#[derive(Debug)]
+struct PlainObj;
+impl Object for PlainObj {
+    fn render(self: &Arc<Self>, f: &mut fmt::Formatter<'_>) -> fmt::Result {
+        f.write_str("<obj&>")
+    }
+}
+
+/// The inner render: prints a list, a map, a string, a number, a bool, none and an object under the
+/// given auto-escape mode.
+pub fn inner_render(env: &Environment<'_>, imode: i64) -> Result<String, Error> {
+    let src = format!(
+        "{{% autoescape {} %}}{{{{ l }}}}|{{{{ m }}}}|{{{{ s }}}}|{{{{ n }}}}|{{{{ b }}}}|{{{{ z }}}}|{{{{ o }}}}{{% endautoescape %}}",
+        ESCAPE_MODES[imode.rem_euclid(3) as usize]
+    );
+    let ctx = minijinja::context! {
+        l => vec![1, 2, 3],
+        m => map_of(vec![(Value::from("a"), Value::from("<b>"))]),
+        s => "<i>&",
+        n => 42,
+        b => true,
+        z => (),
+        o => Value::from_object(PlainObj),
+    };
+    env.render_named_str("inner", &src, ctx)
+}
+
+/// An environment that has nothing to do with any history: created once per process, never changed.
+pub fn unrelated_env() -> &'static Environment<'static> {
+    static ENV: std::sync::OnceLock<Environment<'static>> = std::sync::OnceLock::new();
+    ENV.get_or_init(Environment::new)
+}
+
+/// Inner render started from a callable that has the State: on the same environment (0), on a clone
+/// made right now (1), on a fresh environment (2).  Returns the length of what it rendered.
+pub fn nested_len(state: &State, wher: i64, imode: i64) -> Result<i64, Error> {
+    let s = match wher.rem_euclid(3) {
+        0 => inner_render(state.env(), imode),
+        1 => inner_render(&state.env().clone(), imode),
+        _ => inner_render(&Environment::new(), imode),
+    };
+    s.map(|s| s.len() as i64)
+}
+
+/// Inner render started where there is no State (Display, attribute lookup, callbacks): on a fresh
+/// environment (0) or on the unrelated long-lived one (1).
+pub fn nested_text(wher: i64, imode: i64) -> Result<String, Error> {
+    if wher.rem_euclid(2) == 0 {
+        inner_render(&Environment::new(), imode)
+    } else {
+        inner_render(unrelated_env(), imode)
+    }
+}
+
+/// An object that prints itself through a template of its own (`{{ site }}`), computes an attribute by
+/// rendering (`site.n`) and has a method that renders on the calling environment (`site.go(1)`).
+#[derive(Debug)]
+pub struct Nest {
+    wher: i64,
+    imode: i64,
+}
+impl Object for Nest {
+    fn render(self: &Arc<Self>, f: &mut fmt::Formatter<'_>) -> fmt::Result {
+        let s = nested_text(self.wher, self.imode).map_err(|_| fmt::Error)?;
+        f.write_str(&s)
+    }
+    fn get_value(self: &Arc<Self>, key: &Value) -> Option<Value> {
+        if key.as_str() == Some("n") {
+            Some(Value::from(nested_text(self.wher, self.imode).map(|s| s.len() as i64).unwrap_or(-1)))
+        } else {
+            None
+        }
+    }
+    fn call_method(self: &Arc<Self>, state: &mut State<'_, '_>, method: &str, _args: &[Value]) -> Result<Value, Error> {
+        if method == "go" {
+            nested_len(state, self.wher, self.imode).map(Value::from)
+        } else {
+            Err(Error::new(ErrorKind::UnknownMethod, "no such method"))
+        }
+    }
+}
+
 pub fn loader_fn(l: i64, now: i64, n: i64) -> Result<Option<String>, Error> {
+    if l >= 4 {
+        // a loader callback that renders something itself before it answers
+        let _ = nested_text(l, l.div_euclid(4));
+    }
     let x = (l * 5 + now * 3 + n * 7).rem_euclid(16);
     if x < 3 {
         Ok(None)
@@ -113,6 +216,7 @@ pub fn site_value(w: i64) -> Value {
             (Value::from("by_pos"), map_of(vec![(Value::from(vec![1, 2]), Value::from("pair"))])),
         ]),
         2 => map_of(vec![(Value::from("name"), Value::from("demo")), (Value::from("items"), Value::from(vec![1, 2, 3]))]),
+        w if w >= 4 => Value::from_object(Nest { wher: (w - 4).rem_euclid(2), imode: (w - 4).div_euclid(2).rem_euclid(3) }),
         _ => Value::from(vec![map_of(vec![(Value::from(()), Value::from(1))]), Value::from(2)]),
     }
 }
@@ -193,7 +297,8 @@ fn leak(s: String) -> &'static str {
 pub fn observe(env: &Environment<'static>, data: &Value, out: &mut Vec<String>) {
     let c = env.clone();
     for n in NAMES {
-        let (t, v) = enc(c.get_template(n).and_then(|t| t.render(ctx_of(0, data))));
+        let (t, v) = catch_unwind(AssertUnwindSafe(|| enc(c.get_template(n).and_then(|t| t.render(ctx_of(0, data))))))
+            .unwrap_or((4, 1));
         out.push(t.to_string());
         out.push(v.to_string());
     }
@@ -255,11 +360,17 @@ impl World {
                         kw.assert_all_used()?;
                         Ok(r)
                     }),
+                    (9, 0, _) if w >= 4 => self.cur.add_filter(rname, move |state: &State, v: i64| -> Result<i64, Error> {
+                        Ok(v + nested_len(state, w - 4, (w - 4).div_euclid(3))?)
+                    }),
                     (9, 0, _) => self.cur.add_filter(rname, move |v: i64| v + w),
                     (9, 1, 2) => self.cur.add_test(rname, move |v: i64, kw: Kwargs| -> Result<bool, Error> {
                         let r = if (v + w).rem_euclid(2) == 1 { kw.get::<i64>("opt")? == 1 } else { false };
                         kw.assert_all_used()?;
                         Ok(r)
+                    }),
+                    (9, 1, _) if w >= 4 => self.cur.add_test(rname, move |state: &State, v: i64| -> Result<bool, Error> {
+                        Ok((v + nested_len(state, w - 4, (w - 4).div_euclid(3))?).rem_euclid(2) == 1)
                     }),
                     (9, 1, _) => self.cur.add_test(rname, move |v: i64| (v + w).rem_euclid(2) == 1),
                     (9, _, 2) => self.cur.add_global(rname, site_value(w)),
@@ -267,6 +378,9 @@ impl World {
                         let r = if (q + w).rem_euclid(2) == 1 { x + kw.get::<i64>("opt")? } else { x };
                         kw.assert_all_used()?;
                         Ok(r)
+                    }),
+                    (9, _, _) if w >= 4 => self.cur.add_function(rname, move |state: &State, v: i64| -> Result<Vec<i64>, Error> {
+                        Ok((0..v + nested_len(state, w - 4, (w - 4).div_euclid(3))?).collect())
                     }),
                     (9, _, _) => self.cur.add_function(rname, move |v: i64| (0..v + w).collect::<Vec<i64>>()),
                     (_, 0, _) => self.cur.remove_filter(rname),
@@ -319,6 +433,25 @@ impl World {
                 self.cur.set_keep_trailing_newline(c & 2 != 0);
                 unit
             }
+            // callbacks that render something themselves and then do what the default does
+            23 => {
+                if a.rem_euclid(2) == 1 {
+                    self.cur.set_formatter(move |out, state, value| {
+                        let _ = nested_text(1, a.div_euclid(2));
+                        minijinja::escape_formatter(out, state, value)
+                    });
+                } else {
+                    self.cur.set_formatter(minijinja::escape_formatter);
+                }
+                unit
+            }
+            24 => {
+                self.cur.set_auto_escape_callback(move |name| {
+                    let _ = nested_text(1, a);
+                    minijinja::default_auto_escape_callback(name)
+                });
+                unit
+            }
             15 => match self.cur.get_template(name) {
                 Err(e) => (1, err_code(e.kind())),
                 Ok(t) => {
@@ -346,7 +479,8 @@ fn main() {
         let mut out: Vec<String> = vec![];
         while c.i + 3 <= c.v.len() {
             let (op, a, b) = (c.i64(), c.i64(), c.i64());
-            let (t, v) = w.step(op, a, b);
+            // a panic inside the engine is reported as (4, 1) for that step
+            let (t, v) = catch_unwind(AssertUnwindSafe(|| w.step(op, a, b))).unwrap_or((4, 1));
             if mode == 1 {
                 if c.i + 3 > c.v.len() {
                     out.push(t.to_string());
